@@ -200,6 +200,10 @@ class ConfigurationMultiLevel(Configuration):
             activate_spot_statistics=activate_spot_statistics,
             nb_of_processes=nb_of_processes,
         )
+        if initial_level > maximum_level:
+            raise ValueError(
+                "expected initial_level <= maximum_level (no level above the maximum level is simulated)"
+            )
         self.convergence_rates = convergence_rates or ConvergenceRates()
         self.convergence_criteria = convergence_criteria or GilesConvergenceCriteria()
         self.initial_level = initial_level
